@@ -64,6 +64,7 @@ ASSUMPTIONS = [
 ]
 
 TOL = 1e-6
+ROUTE_TIMEOUT = 4  # CPU seconds; a routing call on these sizes takes about a millisecond
 NOCOMPILE = "nocompile"
 
 
@@ -161,10 +162,9 @@ def _alphabet_a(seed):
     sub2_ops = [cirq.ISWAP(b, c) ** g, cirq.X(c)]
     L = [
         ("X(a)", cirq.X(a), None),
-        ("Y(b)^.5", cirq.Y(b) ** 0.5, None),
+        ("Y(c)^.5", cirq.Y(c) ** 0.5, None),
         ("Z(a)^g", cirq.Z(a) ** g, None),
         ("H(b)", cirq.H(b), None),
-        ("S(c)", cirq.S(c), None),
         ("PhXZ(b)", cirq.PhasedXZGate(x_exponent=0.2, z_exponent=g, axis_phase_exponent=0.1)(b), None),
         ("M1(c)", cirq.MatrixGate(U1)(c), None),
         ("I2(a,b)", cirq.IdentityGate(2)(a, b), None),
@@ -177,7 +177,6 @@ def _alphabet_a(seed):
         ("SQRT_ISWAP(b,c)", cirq.SQRT_ISWAP(b, c), None),
         ("CZ(a,b)", cirq.CZ(a, b), None),
         ("CZ(b,c)^g", cirq.CZ(b, c) ** g, None),
-        ("CZ(a,b)^.5", cirq.CZ(a, b) ** 0.5, None),
         ("FSim(a,c)", cirq.FSimGate(g, g2)(a, c), None),
         ("M2(a,c)", cirq.MatrixGate(U2)(a, c), None),
         ("ZZ(a,b)^g", cirq.ZZ(a, b) ** g, None),
@@ -194,8 +193,16 @@ def _alphabet_a(seed):
     return L
 
 
-_SUB_LETTERS = (28, 29)
-_CORE3 = (0, 3, 10, 15, 17, 12, 16, 24, 26)  # letters of the length-3 core (old-vs-new 2q count choice, tags, measurement)
+_SUB_NAMES = ("SUB[H,CNOT,T]", "SUB[ISWAP^g,X]x2")
+# letters of the length-3 core (old-vs-new two-qubit count choice, partial CZ, ignored tag, measurement)
+_CORE3_NAMES = ("H(b)", "CNOT(a,b)", "CZ(a,b)", "CZ(b,c)^g", "nc:ISWAP(a,b)^g", "meas(a,b;m)")
+_CORE3_MORE = ("X(a)", "Y(c)^.5", "M1xM1(a,b)", "CNOT(b,a)", "ISWAP(a,b)", "SWAP(b,c)", "SQRT_ISWAP(b,c)", "FSim(a,c)", "ZZ(a,b)^g",
+               "meas(c;k,inv)")
+
+
+def _idx(names):
+    pos = {l[0]: i for i, l in enumerate(_A["L"])}
+    return [pos[n] for n in names]
 
 
 def _gatesets(seed):
@@ -333,12 +340,13 @@ def _cases_compile(tier, seed, slow):
         idxs = list(range(nL + len(nat)))
         seqs = [()] + [(i,) for i in idxs] + list(itertools.product(idxs, repeat=2))
         if not is_slow:
-            core3 = list(_CORE3) + [nL + k for k in range(len(nat))]
+            core3 = _idx(_CORE3_NAMES) + [nL + k for k in range(min(2, len(nat)))]
             if tier == "thorough":
-                core3 = sorted(set(core3) | {1, 9, 11, 13, 14, 18, 20, 27})
+                core3 = sorted(set(core3) | set(_idx(_CORE3_MORE)) | {nL + k for k in range(len(nat))})
             seqs += list(itertools.product(core3, repeat=3))
+        sub_letters = set(_idx(_SUB_NAMES))
         for seq in seqs:
-            has_sub = any(i in _SUB_LETTERS for i in seq)
+            has_sub = any(i in sub_letters for i in seq)
             for pi in range(len(PASSES)):
                 for deep in ((0, 1) if has_sub else (0,)):
                     cases.append((gi, pi, deep, tuple(seq)))
@@ -561,57 +569,103 @@ def _patterns(maxlen, kmax):
 
 
 def _marker(seed):
-    return E.generic_unitary(2, seed + 77)
+    if ("marker", seed) not in _B:
+        _B[("marker", seed)] = E.generic_unitary(2, seed + 77)
+    return _B[("marker", seed)]
+
+
+def _left_apply(T, mat, targets, n):
+    """T: tensor of shape (2,)*n + (D,) holding a 2^n x D matrix (big-endian rows); returns (mat on wires `targets`) @ T.
+    Own implementation (tensor contraction), cross-checked against mc.ref.embed at import time."""
+    k = len(targets)
+    m = np.asarray(mat, dtype=np.complex128).reshape((2,) * (2 * k))
+    out = np.tensordot(m, T, axes=(list(range(k, 2 * k)), list(targets)))  # new axes 0..k-1 = output wires `targets`
+    return np.moveaxis(out, list(range(k)), list(targets))
+
+
+_UCACHE = {}
+
+
+def _u_cached(op):
+    g = op.gate
+    try:
+        return _UCACHE[g]
+    except KeyError:
+        u = _UCACHE[g] = _u(op)
+        return u
+    except TypeError:
+        return _u(op)
 
 
 def _route_unitary(ops, wires, seed):
     """Unitary of a list of ops on `wires`; measurements are replaced by a generic 1-qubit marker on each measured qubit."""
     n = len(wires)
-    shape = (2,) * n
     idx = {q: i for i, q in enumerate(wires)}
-    U = np.eye(2 ** n, dtype=np.complex128)
+    D = 2 ** n
+    T = np.eye(D, dtype=np.complex128).reshape((2,) * n + (D,))
     mk = _marker(seed)
     for op in ops:
         if cirq.is_measurement(op):
             for q in op.qubits:
-                U = E.embed(mk, [idx[q]], shape) @ U
+                T = _left_apply(T, mk, [idx[q]], n)
         else:
-            U = E.embed(_u(op), [idx[q] for q in op.qubits], shape) @ U
-    return U
+            T = _left_apply(T, _u_cached(op), [idx[q] for q in op.qubits], n)
+    return T.reshape(D, D)
+
+
+def _self_test_left_apply():
+    n = 4
+    ops = [(E.generic_unitary(4, 1), [2, 0]), (E.generic_unitary(2, 2), [3]), (E.generic_unitary(8, 3), [1, 3, 0]),
+           (E.generic_unitary(4, 4), [1, 2])]
+    ref = E.apply_ops(ops, (2,) * n)
+    T = np.eye(2 ** n, dtype=np.complex128).reshape((2,) * n + (2 ** n,))
+    for mat, tg in ops:
+        T = _left_apply(T, mat, tg, n)
+    if not np.allclose(T.reshape(2 ** n, 2 ** n), ref, atol=1e-12):
+        raise core.HarnessError("_left_apply disagrees with mc.ref.embed")
+
+
+_self_test_left_apply()
 
 
 def _check_routing(G, directed, circuit, la, tag, mapper, mapper_desc, seed, n_logical_2q):
     """Runs RouteCQC and checks the routing clause of the property; returns Res."""
     router = cirq.RouteCQC(G)
     snap = circuit.copy()
-    desc = (f"graph nodes={sorted(G.nodes)} edges={sorted(G.edges)} directed={directed} lookahead_radius={la} "
-            f"tag_inserted_swaps={tag} mapper={mapper_desc}\ncircuit:\n{circuit}")
+    res = []  # routed results, for the lazily built description
+
+    def _d():
+        t = (f"graph nodes={sorted(G.nodes)} edges={sorted(G.edges)} directed={directed} lookahead_radius={la} "
+             f"tag_inserted_swaps={tag} mapper={mapper_desc}\ncircuit:\n{circuit}")
+        if res:
+            t += f"\nrouted:\n{res[0]}\ninitial_map={res[1]}\nswap_map={res[2]}"
+        return t
     try:
-        routed, imap, smap = _with_timeout(60, lambda: router.route_circuit(
+        routed, imap, smap = _with_timeout(ROUTE_TIMEOUT, lambda: router.route_circuit(
             circuit, lookahead_radius=la, tag_inserted_swaps=tag, initial_mapper=mapper))
     except _Timeout:
-        return bad(f"route_circuit did not terminate within 60 s of CPU time: {desc}", kind="route_timeout")
+        return bad(f"route_circuit did not terminate within {ROUTE_TIMEOUT} s of CPU time (typical: 1 ms): {_d()}", kind="route_timeout")
     except IndexError as e:
-        return bad(f"route_circuit raised IndexError ({e}) on a routable input: {desc}", kind="route_indexerror")
+        return bad(f"route_circuit raised IndexError ({e}) on a routable input: {_d()}", kind="route_indexerror")
     if circuit != snap:
-        return bad(f"route_circuit modified its input: {desc}", kind="route_input_modified")
-    desc += f"\nrouted:\n{routed}\ninitial_map={imap}\nswap_map={smap}"
+        return bad(f"route_circuit modified its input: {_d()}", kind="route_input_modified")
+    res.extend([routed, imap, smap])
     # initial map: injective, covers the circuit's qubits, lands on device nodes
     if not set(circuit.all_qubits()) <= set(imap.keys()):
-        return bad(f"initial map does not cover the circuit's qubits: {desc}", kind="initial_map")
+        return bad(f"initial map does not cover the circuit's qubits: {_d()}", kind="initial_map")
     if len(set(imap.values())) != len(imap) or not set(imap.values()) <= set(G.nodes):
-        return bad(f"initial map is not an injection into the device nodes: {desc}", kind="initial_map")
+        return bad(f"initial map is not an injection into the device nodes: {_d()}", kind="initial_map")
     # swap map: a permutation of the mapped physical qubits
     if set(smap.keys()) != set(imap.values()) or set(smap.values()) != set(imap.values()):
-        return bad(f"swap map is not a permutation of the mapped physical qubits: {desc}", kind="swap_map")
+        return bad(f"swap map is not a permutation of the mapped physical qubits: {_d()}", kind="swap_map")
     # every >=2-qubit non-measurement op on a device edge (arc direction respected for digraphs)
     nswaps = 0
     for op in routed.all_operations():
         if not set(op.qubits) <= set(imap.values()):
-            return bad(f"routed op {op!r} uses a qubit outside the mapped device qubits: {desc}", kind="off_device")
+            return bad(f"routed op {op!r} uses a qubit outside the mapped device qubits: {_d()}", kind="off_device")
         if len(op.qubits) >= 2 and not cirq.is_measurement(op):
             if len(op.qubits) != 2 or not G.has_edge(op.qubits[0], op.qubits[1]):
-                return bad(f"routed op {op!r} is not on a device edge: {desc}", kind="not_on_edge")
+                return bad(f"routed op {op!r} is not on a device edge: {_d()}", kind="not_on_edge")
         if cirq.RoutingSwapTag() in op.tags:
             nswaps += 1
     # U(routed) == P(swap_map) . U(circuit mapped by initial_map)
@@ -623,14 +677,14 @@ def _check_routing(G, directed, circuit, la, tag, mapper, mapper_desc, seed, n_l
     perm = [widx[smap[q]] for q in wires]
     P = E.permute_wires(perm, (2,) * len(wires))
     if not E.eq_up_to_phase(P @ Uref, Ugot, TOL):
-        return bad(f"routed circuit is not equal to the mapped input followed by the reported permutation: {desc}",
+        return bad(f"routed circuit is not equal to the mapped input followed by the reported permutation: {_d()}",
                    kind="route_not_equivalent")
     # measurements: same multiset of measured (physical) qubits, keys kept unless the documented split applied
     mq_ref = sorted(q for op in mapped_ops if cirq.is_measurement(op) for q in op.qubits)
     # (a measured logical qubit may have been moved by swaps before the measurement: compare counts only)
     mq_got = [q for op in routed.all_operations() if cirq.is_measurement(op) for q in op.qubits]
     if len(mq_ref) != len(mq_got):
-        return bad(f"number of measured qubits changed: {desc}", kind="route_measurement")
+        return bad(f"number of measured qubits changed: {_d()}", kind="route_measurement")
     # routed_circuit_with_mapping agrees with the reported swap map (tagged swaps, undirected swaps only)
     if tag and all(isinstance(op.gate, cirq.SwapPowGate) for op in routed.all_operations() if cirq.RoutingSwapTag() in op.tags):
         viz = cirq.routed_circuit_with_mapping(routed, imap)
@@ -639,13 +693,17 @@ def _check_routing(G, directed, circuit, la, tag, mapper, mapper_desc, seed, n_l
             if type(op.gate).__name__ == "_SwapPrintGate":
                 last = op
         if last is None:
-            return bad(f"routed_circuit_with_mapping produced no mapping column: {desc}", kind="viz")
+            return bad(f"routed_circuit_with_mapping produced no mapping column: {_d()}", kind="viz")
         inv = {v: k for k, v in imap.items()}
         for pos, (content_phys, logical) in zip(last.qubits, last.gate.qubits):
             # `content_phys` = physical qubit whose initial content now sits at `pos`
             if smap[content_phys] != pos or inv[content_phys] != logical:
                 return bad(f"routed_circuit_with_mapping disagrees with the swap map at {pos}: shows ({content_phys},{logical}): "
-                           f"{desc}", kind="viz")
+                           f"{_d()}", kind="viz")
+    if la == 2:
+        again = router(circuit, lookahead_radius=la, tag_inserted_swaps=tag, initial_mapper=mapper)
+        if again != routed:
+            return bad(f"RouteCQC.__call__ and route_circuit()[0] differ:\n{again}\n{_d()}", kind="route_call_differs")
     return good(nontrivial=n_logical_2q > 0, routed=1, inserted_swaps_tagged=nswaps,
                 with_swaps=int(len(list(routed.all_operations())) > len(list(circuit.all_operations()))))
 
@@ -788,7 +846,7 @@ def _cases_route_placements(tier, directed):
                 continue
             plen = len(pat)
             if directed:
-                if plen > (3 if thorough else 2):
+                if plen > (3 if (thorough and n <= 4) else 2):
                     continue
             elif n == 6:
                 if plen > 2:
@@ -802,7 +860,7 @@ def _cases_route_placements(tier, directed):
             pls = _placements(n, k)
             for qi, pl in enumerate(pls):
                 for pad in (1, 0):
-                    if not pad and k == n:
+                    if not pad and (k == n or (directed and n == 5)):
                         continue
                     for la in (1, 2, 8):
                         tag = (qi + pi + la) % 2
@@ -862,7 +920,7 @@ def _bfs_dist(adj, s, t):
 
 
 def _run_mapping_manager(case):
-    gref, placement = case
+    gref, placement, maxdepth = case
     n, edges, directed = _graph_of(gref)
     style = gref[1] % 2
     G = _device_graph(n, edges, directed, style)
@@ -926,7 +984,7 @@ def _run_mapping_manager(case):
         msg = check_state(path)
         if msg:
             return msg
-        if depth == 3:
+        if depth == maxdepth:
             return None
         for i, j in itertools.combinations(range(k), 2):
             a, b = li[lq[i]], li[lq[j]]
@@ -968,9 +1026,10 @@ def _cases_mapping_manager(tier):
         for gi, (n, edges) in enumerate(graphs):
             ks = [n] if n >= 5 else list(range(2, n + 1))
             for k in ks:
-                pls = _placements(n, k, limit=24 if tier == "quick" else 120)
-                for pl in pls:
-                    cases.append(((kind, gi), tuple(pl)))
+                # MappingManager does not depend on which logical qubit sits where beyond relabelling: every placement for
+                # <= 24, else the placements of the canonical logical qubit
+                for pl in _placements(n, k, limit=24):
+                    cases.append(((kind, gi), tuple(pl), 3 if n <= 5 else 2))
     return cases
 
 
